@@ -322,9 +322,9 @@ func TestVerifBoundedFuzz(t *testing.T) {
 		}
 	}
 	// nesting depth: stack exhaustion kills the process, so probe in a child
-	depths := []int{1000, 100000}
+	depths := []int{1000, 9999, 10001, 4000000}
 	if thorough {
-		depths = append(depths, 1000000, 4000000)
+		depths = append(depths, 100000, 1000000, 20000000)
 	}
 	for _, n := range depths {
 		cases++
